@@ -17,6 +17,10 @@ CLAIMED = {
   text='Coq theorems (Props/C15.v) about executable models of select_fields, delete_fields, rename_fields, add_field/add_computed_field and find_replace: resulting field list and row keys agree (set equality in selection order for select; list equality in original order for delete/rename/find_replace; new fields appended for add_*), untouched and renamed fields keep their values, computed values equal the operation on that row (sum/max/min characterised, constant/join/format/callable by definition). Correspondence by vm_compute against the real processors on generated tables with metacharacter/prefix field names, regex on/off, two resources; direct oracle recomputes schema and rows from the documented rules.',
   note='Trusted: Coq kernel+vm_compute; Python re decides field-pattern matches and substitutions (tables); numeric operations modelled over integers (avg only where exactly representable); patterns without top-level alternation; rename targets not colliding with remaining names (domain guard).',
   technique='Coq proof over executable model + vm_compute correspondence + direct oracle', ref='5/C15'),
+ 'C12': dict(
+  text='Coq theorems (Props/C12.v) about the model of sort_rows (key calculation incl. the sign-flipped binary64 image, row-number suffix, ordered key/value store): the store returns a sorted permutation; fixed-width hex suffixes order like their numbers; whenever no key is a proper prefix of another (always so for numeric keys) the output is strictly increasing in (key, input position) -- ascending, stable, a permutation -- for any number of rows below 16^8; reverse=True is exactly the reversed list. Correspondence by vm_compute against the real sort_rows (several batch sizes; above the 10240-entry cache in the thorough tier); direct oracle = stable sort by the property\'s order. Four known findings (prefix text keys, inexact doubles, -0.0, multi-field concatenation) are recognised individually.',
+  note='Trusted: Coq kernel+vm_compute; KVFile specified as an ordered map (exercised, not verified); monotonicity of the binary64 bit image is validated by correspondence (adjacent doubles of both signs in the pool), not yet proved; harness oracle and recognisers.',
+  technique='Coq proof over executable model + vm_compute correspondence + direct oracle + known-finding recognisers', ref='5/C12'),
 }
 
 NOT_YET = 'check not built yet (work in progress; will be claimed once its Coq model, theorems and correspondence check exist)'
